@@ -84,6 +84,42 @@ pub trait Ext: Fixed {
     fn x_checked_next_power_of_two(self) -> Option<Self>;
     // inherent (not on the trait)
     fn x_checked_rem_int(self, i: Self::Bits) -> Option<Self>;
+    // comparisons with the primitive on the left (impls exist per concrete family only)
+    fn x_rev_cmp_int(&self, isigned: bool, m: u32, ib: u128) -> [u8; 7];
+    fn x_rev_cmp_f32(&self, f: f32) -> [u8; 7];
+    fn x_rev_cmp_f64(&self, f: f64) -> [u8; 7];
+}
+
+/// the six comparison operators and partial_cmp of `a ? b` as 7 characters
+pub fn ord7<A: PartialOrd<B> + PartialEq<B>, B>(a: &A, b: &B) -> [u8; 7] {
+    let c = |x: bool| if x { b'1' } else { b'0' };
+    [
+        c(a == b),
+        c(a != b),
+        c(a < b),
+        c(a <= b),
+        c(a > b),
+        c(a >= b),
+        match a.partial_cmp(b) {
+            Some(core::cmp::Ordering::Less) => b'l',
+            Some(core::cmp::Ordering::Equal) => b'e',
+            Some(core::cmp::Ordering::Greater) => b'g',
+            None => b'n',
+        },
+    ]
+}
+
+/// record a 7-character comparison outcome (or the panic)
+pub fn rec_ord(ev: &mut Ev, f: &mut dyn FnMut() -> [u8; 7]) {
+    let mut r = [b'?'; 7];
+    match guard(&mut || r = f()) {
+        None => {
+            let mut s = String::from("C:");
+            s.push_str(core::str::from_utf8(&r).unwrap());
+            ev.raw(&s)
+        }
+        Some(p) => ev.p(&p),
+    }
 }
 
 macro_rules! ext_common {
@@ -103,6 +139,25 @@ macro_rules! ext_common {
         fn x_div_int_refs(a: &Self, i: &$Inner) -> [Self; 3] { [a / i, a / *i, *a / i] }
         fn x_rem_int_refs(a: &Self, i: &$Inner) -> [Self; 3] { [a % i, a % *i, *a % i] }
         fn x_checked_rem_int(self, i: $Inner) -> Option<Self> { self.checked_rem_int(i) }
+        fn x_rev_cmp_int(&self, isigned: bool, m: u32, ib: u128) -> [u8; 7] {
+            match (isigned, m) {
+                (true, 8) => ord7(&(ib as i8), self),
+                (true, 16) => ord7(&(ib as i16), self),
+                (true, 32) => ord7(&(ib as i32), self),
+                (true, 64) => ord7(&(ib as i64), self),
+                (true, 128) => ord7(&(ib as i128), self),
+                (true, 0) => ord7(&(ib as isize), self),
+                (false, 8) => ord7(&(ib as u8), self),
+                (false, 16) => ord7(&(ib as u16), self),
+                (false, 32) => ord7(&(ib as u32), self),
+                (false, 64) => ord7(&(ib as u64), self),
+                (false, 128) => ord7(&(ib as u128), self),
+                (false, 0) => ord7(&(ib as usize), self),
+                _ => unreachable!(),
+            }
+        }
+        fn x_rev_cmp_f32(&self, f: f32) -> [u8; 7] { ord7(&f, self) }
+        fn x_rev_cmp_f64(&self, f: f64) -> [u8; 7] { ord7(&f, self) }
     };
 }
 
